@@ -44,6 +44,7 @@ type lsAccess struct {
 	sect           int
 	init           bool
 	ord            int
+	mutex          string // cbcall: the mutex (possibly) held
 }
 
 type lsHold struct {
@@ -98,6 +99,89 @@ type lsWalker struct {
 	ord     int
 	unknown bool
 	ctx     []*lsBreakCtx
+	// may-hold pass (callback calls): control flow is joined by UNION (a key counts as held after a branch if it is
+	// held on SOME way out), immediately invoked and deferred function literals inherit what is held.
+	may     bool
+	sawLock bool // the function takes a guard mutex of a tracked type itself
+}
+
+// join: must-hold pass = intersection (a key is held only if held on every way), may-hold pass = union.
+func (w *lsWalker) join(a, b lsState) lsState {
+	if !w.may {
+		return lsMeet(a, b)
+	}
+	c := a.clone()
+	for k, v := range b {
+		if o, ok := c[k]; !ok || (o.mode == "r" && v.mode == "w") {
+			c[k] = v
+		}
+	}
+	return c
+}
+
+// funcValueCall: is the callee of this call a function VALUE (variable, parameter, struct field, map / slice element,
+// result of another call) rather than a declared function, method, builtin or conversion?  Returns the name of the
+// callee's (named) type where known.
+func (w *lsWalker) funcValueCall(fun ast.Expr) (bool, string) {
+	typeName := func(e ast.Expr) string {
+		if tv, ok := w.info.Types[e]; ok && tv.Type != nil {
+			if n, ok := tv.Type.(*types.Named); ok {
+				return n.Obj().Name()
+			}
+		}
+		return ""
+	}
+	switch f := fun.(type) {
+	case *ast.ParenExpr:
+		return w.funcValueCall(f.X)
+	case *ast.Ident:
+		if _, isVar := w.info.Uses[f].(*types.Var); isVar {
+			return true, typeName(f)
+		}
+		return false, ""
+	case *ast.SelectorExpr:
+		if sel, ok := w.info.Selections[f]; ok {
+			if sel.Kind() == types.FieldVal {
+				return true, typeName(f)
+			}
+			return false, ""
+		}
+		return false, "" // package-qualified function, or nothing we can resolve
+	case *ast.IndexExpr:
+		if id, ok := f.X.(*ast.Ident); ok {
+			if _, isFunc := w.info.Uses[id].(*types.Func); isFunc {
+				return false, "" // instantiation of a generic function
+			}
+		}
+		if tv, ok := w.info.Types[f]; ok && tv.IsType() {
+			return false, ""
+		}
+		return true, typeName(f)
+	case *ast.CallExpr:
+		if tv, ok := w.info.Types[f]; ok && tv.IsType() {
+			return false, ""
+		}
+		return true, typeName(f)
+	case *ast.TypeAssertExpr:
+		return true, typeName(f)
+	}
+	return false, ""
+}
+
+// strongest says how any guard mutex of a tracked type is (possibly) held: none | r | w, and which one.
+func strongest(st lsState) (string, string) {
+	mode, key := "none", ""
+	keys := make([]string, 0, len(st))
+	for k := range st {
+		keys = append(keys, k)
+	}
+	sort.Strings(keys)
+	for _, k := range keys {
+		if m := st[k].mode; mode == "none" || (mode == "r" && m == "w") {
+			mode, key = m, k
+		}
+	}
+	return mode, key
 }
 
 // namedOf returns the name of the (pointer to a) named struct type, "" otherwise.
@@ -299,6 +383,20 @@ func (w *lsWalker) expr(e ast.Expr, st lsState, mode string) {
 		w.block(x.Body.List, lsState{})
 		w.ctx = saved
 	case *ast.CallExpr:
+		if lit, ok := x.Fun.(*ast.FuncLit); ok && w.may {
+			// func(){…}() and defer func(){…}(): runs here, with whatever is held
+			saved := w.ctx
+			w.ctx = nil
+			w.block(lit.Body.List, st)
+			w.ctx = saved
+			w.exprs(x.Args, st, "escape")
+			return
+		}
+		if isCb, tn := w.funcValueCall(x.Fun); isCb {
+			held, key := strongest(st)
+			w.ord++
+			w.out = append(w.out, lsAccess{typ: tn, field: w.p.text(x.Fun), fn: w.fn, acc: "cbcall", held: held, mutex: key, ord: w.ord})
+		}
 		if id, ok := x.Fun.(*ast.Ident); ok {
 			if _, isBuiltin := w.info.Uses[id].(*types.Builtin); isBuiltin || w.info.Uses[id] == nil {
 				switch id.Name {
@@ -375,6 +473,7 @@ func (w *lsWalker) stmt(s ast.Stmt, st lsState) (lsState, bool) {
 	case nil:
 	case *ast.ExprStmt:
 		if key, op, ok := w.lockCall(x.X); ok {
+			w.sawLock = true
 			st = st.clone()
 			switch op {
 			case "Lock":
@@ -400,7 +499,12 @@ func (w *lsWalker) stmt(s ast.Stmt, st lsState) (lsState, bool) {
 		}
 		w.expr(x.Call, st, "read")
 	case *ast.GoStmt:
-		w.expr(x.Call, st, "read")
+		if lit, ok := x.Call.Fun.(*ast.FuncLit); ok {
+			w.expr(lit, st, "read") // another goroutine: nothing held
+			w.exprs(x.Call.Args, st, "escape")
+		} else {
+			w.expr(x.Call, st, "read")
+		}
 	case *ast.AssignStmt:
 		w.exprs(x.Rhs, st, "escape")
 		if x.Tok != token.DEFINE {
@@ -464,7 +568,7 @@ func (w *lsWalker) stmt(s ast.Stmt, st lsState) (lsState, bool) {
 		case t2:
 			return s1, false
 		default:
-			return lsMeet(s1, s2), false
+			return w.join(s1, s2), false
 		}
 	case *ast.ForStmt:
 		st, _ = w.stmt(x.Init, st)
@@ -509,15 +613,15 @@ func (w *lsWalker) loop(st lsState, body func(lsState) (lsState, bool)) lsState 
 		w.popCtx()
 		next := entry
 		if !term {
-			next = lsMeet(next, end)
+			next = w.join(next, end)
 		}
 		for _, cs := range c.continues {
-			next = lsMeet(next, cs)
+			next = w.join(next, cs)
 		}
 		if lsEqual(next, entry) || iter > 8 {
 			after := entry
 			for _, bs := range c.breaks {
-				after = lsMeet(after, bs)
+				after = w.join(after, bs)
 			}
 			if iter > 8 {
 				w.unknown = true
@@ -567,7 +671,7 @@ func (w *lsWalker) clauses(list []ast.Stmt, st lsState) lsState {
 	}
 	out := ends[0]
 	for _, e := range ends[1:] {
-		out = lsMeet(out, e)
+		out = w.join(out, e)
 	}
 	return out
 }
@@ -583,6 +687,7 @@ func genRegistryLocks(root *pkgSrc) {
 	conf.Check("mcp", root.fset, files, info)
 
 	var all []lsAccess
+	var cbs []lsCbCall
 	for _, fname := range root.sortedFiles() {
 		for _, d := range root.files[fname].Decls {
 			fd, ok := d.(*ast.FuncDecl)
@@ -598,7 +703,21 @@ func genRegistryLocks(root *pkgSrc) {
 					}
 				}
 			}
-			all = append(all, w.out...)
+			for _, a := range w.out {
+				if a.acc != "cbcall" {
+					all = append(all, a)
+				}
+			}
+			if w.sawLock {
+				// second, may-hold pass over the functions that take a registry lock: calls through function values
+				w2 := &lsWalker{p: root, info: info, fn: funcName(fd), may: true}
+				w2.block(fd.Body.List, lsState{})
+				for _, a := range w2.out {
+					if a.acc == "cbcall" {
+						cbs = append(cbs, lsCbCall{fn: a.fn, callee: a.field, typ: a.typ, held: a.held, mutex: a.mutex, sure: !w2.unknown, ord: a.ord})
+					}
+				}
+			}
 		}
 		// package-level variable initialisers
 		for _, d := range root.files[fname].Decls {
@@ -717,8 +836,30 @@ func genRegistryLocks(root *pkgSrc) {
 		fmt.Fprintf(&b, "  ⟨%s, %s, %s, %d, %s⟩%s  -- %s.%s in %s: %d section(s)%s\n", leanText(f.typ), leanText(f.mutex), leanText(f.fn), f.sections, leanBool(f.writes), sep,
 			f.typ, f.mutex, f.fn, f.sections, map[bool]string{true: ", writes", false: ""}[f.writes])
 	}
+	sort.SliceStable(cbs, func(i, j int) bool {
+		if cbs[i].fn != cbs[j].fn {
+			return cbs[i].fn < cbs[j].fn
+		}
+		return cbs[i].ord < cbs[j].ord
+	})
+	b.WriteString("]\n\n/-- Every call THROUGH A FUNCTION VALUE (variable, parameter, struct field, map element: the user's handlers, filters and\n    callbacks are such values) inside a function that takes a registry lock, with how a registry lock is POSSIBLY held at\n    that point (may-analysis: held on some path; deferred unlock = held to the end):\n    ⟨function, callee expression, callee type, lock possibly held, control flow understood⟩. -/\n")
+	b.WriteString("def registryCallbackCalls : List CbCall := [\n")
+	for i, c := range cbs {
+		sep := ","
+		if i == len(cbs)-1 {
+			sep = ""
+		}
+		fmt.Fprintf(&b, "  ⟨%s, %s, %s, .%s, %s⟩%s  -- %s calls %s (%s), held %s %s\n", leanText(c.fn), leanText(c.callee), leanText(c.typ), c.held, leanBool(c.sure), sep,
+			c.fn, strings.ReplaceAll(c.callee, "\n", " "), c.typ, c.held, c.mutex)
+	}
 	b.WriteString("]\n\nend Mcp.Gen\n")
 	writeIfChanged("RegistryLocks.lean", b.String())
+}
+
+type lsCbCall struct {
+	fn, callee, typ, held, mutex string
+	sure                         bool
+	ord                          int
 }
 
 type lsFnFact struct {
